@@ -127,6 +127,24 @@ func (p *strParser) parse() M {
 	return M{"op": "v", "i": i, "kids": []M{}}
 }
 
+func depthOf(a M) int {
+	d := 0
+	for _, k := range a["kids"].([]M) {
+		if x := depthOf(k); x > d {
+			d = x
+		}
+	}
+	return d + 1
+}
+
+func flatten(a M, out *[]M) {
+	kids := a["kids"].([]M)
+	for _, k := range kids {
+		flatten(k, out)
+	}
+	*out = append(*out, M{"op": a["op"], "i": a["i"], "n": len(kids)})
+}
+
 func renderTokens(toks []string, r *rand.Rand, level int) string {
 	var b strings.Builder
 	for i, t := range toks {
@@ -259,6 +277,7 @@ func BF(c Case) (out Case) {
 			r["text"] = text
 			r["panic"], r["err"], r["nilFormula"], r["foreign"] = false, false, true, false
 			r["ast"] = M{"op": "F", "i": 0, "kids": []M{}}
+			r["flat"], r["useFlat"] = []M{}, false
 			r["str"] = ""
 			func() {
 				defer func() {
@@ -274,8 +293,17 @@ func BF(c Case) (out Case) {
 					s := pf.String()
 					r["str"] = s
 					p := &strParser{s: []rune(s), nm: nm}
-					r["ast"] = p.parse()
+					ast := p.parse()
+					r["ast"] = ast
 					r["foreign"] = p.foreign
+					if depthOf(ast) > 100 {
+						// the JSON reader of the trace specification stops at 255 levels of nesting: a deep tree is
+						// handed over in post-order (operator, variable index, number of operands), a flat list
+						flat := []M{}
+						flatten(ast, &flat)
+						r["flat"], r["useFlat"] = flat, true
+						r["ast"] = M{"op": "F", "i": 0, "kids": []M{}}
+					}
 				}
 			}()
 		default:
